@@ -1041,6 +1041,6 @@ const float *vorbis_window(vorbis_dsp_state *v,int W){
   int hs=ci->halfrate_flag;
   private_state *b=v->backend_state;
 
-  if(b->window[W]-1<0)return NULL;
+  if(b->window[W]-hs<0)return NULL;
   return _vorbis_window_get(b->window[W]-hs);
 }
